@@ -236,22 +236,23 @@ def numIsInt : Num → Bool
   | .flt d => d.normalize.isIntegral
 
 /-- `validate_int(value)`: an `int` passes; a `QConstant` passes when its value is integral; the value
-itself (not its integer) is returned. -/
-def validateInt (st : Stack) : Count → M QAtom
+itself (not its integer) is returned.  (`lets` = the `QConstant`s created so far: the Python reads the
+value off the object it is handed.) -/
+def validateInt (lets : List LetObj) : Count → M QAtom
   | .lit n => .ok (.int n)
   | .ref i =>
-    match st.lets[i]? with
+    match lets[i]? with
     | none => .error (.other "KeyError")
     | some l => if numIsInt l.value then .ok (.const i) else .error (.jaqal "Invalid int value")
 
 /-- Evaluation of one Python argument expression of a gate call: `1.5`, `lets[i]`, `regs[r]`,
 `regs[r][idx]` (`QRegister.__getitem__` → `QNamedQubit.__init__` → `validate_int(index)`). -/
-def mkArg (st : Stack) : Arg → M QVal
+def mkArg (lets : List LetObj) : Arg → M QVal
   | .num v => .ok (.num v)
   | .ref i => .ok (.const i)
   | .reg r => .ok (.reg r)
   | .qubit r idx => do
-      let a ← validateInt st idx
+      let a ← validateInt lets idx
       pure (.qubit r a)
 
 /-- The argument of `Q.loop(repeats)` / `Q.subcircuit(argument)`: passed through unchecked. -/
@@ -281,7 +282,7 @@ mutual
 /-- The Q API calls that replay one statement. -/
 def exec : Stmt → Stack → M Stack
   | .gate name args, st => do
-      let a ← args.mapM (mkArg st)
+      let a ← args.mapM (mkArg st.lets)
       st.setStatement (.gateCall name a)
   | .seq body, st => do
       let st2 ← execs body st.push
@@ -306,7 +307,7 @@ end
 def declRegs : List RegDecl → Stack → M Stack
   | [], st => .ok st
   | r :: rest, st => do
-      let sz ← validateInt st r.size
+      let sz ← validateInt st.lets r.size
       declRegs rest (st.setRegister { size := sz, name := r.name })
 
 /-- `Q.let(value, name)` for every let (`QConstant.__init__` accepts any `int` / `float`). -/
@@ -370,19 +371,19 @@ def validInner : BlockCls → QStmt → Bool
 if self.argument is None:
     if self.default_argument is None: raise JaqalError(...)
     ret.append(self.default_argument)
-ret.append(lookup_object(self.argument))          # NOT in an else branch
+else:
+    ret.append(lookup_object(self.argument))
 ```
-With `argument is None` a subcircuit gets BOTH the default `1` and `None` (see `qblock_none_argument`
-in Props/C17.lean); the API default `Q.subcircuit(argument=1)` never passes `None`. -/
+(The `else` is today's repair: before it `Q.subcircuit(None)` produced `["subcircuit_block", 1, None, …]`.) -/
 def blockHeader (ln rn : List String) (cls : BlockCls) (argument : QVal) : M (List Sx) :=
-  if cls.arity == 1 then do
-    let d ← (if argument == .none then
-               match cls.defaultArgument with
-               | none => throw (.jaqal "requires an argument")
-               | some d => pure [d]
-             else pure [])
-    let a ← lookup ln rn argument
-    pure (d ++ [a])
+  if cls.arity == 1 then
+    if argument == .none then
+      match cls.defaultArgument with
+      | none => throw (.jaqal "requires an argument")
+      | some d => pure [d]
+    else do
+      let a ← lookup ln rn argument
+      pure [a]
   else pure []
 
 mutual
@@ -672,15 +673,20 @@ legal nesting, and `register_statement` rejects a literal size `≤ 0`. -/
 def Prog.legal (p : Prog) : Bool :=
   p.regs.all (fun r => match r.size with | .lit n => n > 0 | .ref _ => true) && legals .top p.body
 
-/-- SPECIFICATION of "the body begins with a prepare or a subcircuit": the first statement is the
-prepare gate, or a subcircuit, or a sequential / parallel block or loop whose body begins so. -/
+mutual
+/-- The statement is the prepare gate, or a subcircuit, or a sequential / parallel block or loop whose
+body begins so. -/
+def Stmt.beginsPrepOrSub : Stmt → Bool
+  | .gate n _ => n == prepareName
+  | .sub _ _ => true
+  | .seq body => beginsPrepOrSub body
+  | .par body => beginsPrepOrSub body
+  | .loop _ body => beginsPrepOrSub body
+/-- SPECIFICATION of "the body begins with a prepare or a subcircuit": its first statement does. -/
 def beginsPrepOrSub : List Stmt → Bool
   | [] => false
-  | .gate n _ :: _ => n == prepareName
-  | .sub _ _ :: _ => true
-  | .seq body :: _ => beginsPrepOrSub body
-  | .par body :: _ => beginsPrepOrSub body
-  | .loop _ body :: _ => beginsPrepOrSub body
+  | s :: _ => s.beginsPrepOrSub
+end
 
 def wraps (p : Prog) : Bool := !beginsPrepOrSub p.body
 
